@@ -1,25 +1,19 @@
-use quote::quote_spanned;
-use syn::{spanned::Spanned, Type};
+use syn::{spanned::Spanned, Lifetime, Type};
 
-use crate::common::{r#type::dereference_changed, tools::HashType};
+use crate::common::tools::HashType;
 
 #[inline]
 pub(crate) fn to_hash_type(ty: &Type) -> HashType {
-    // a reference without a lifetime means `&'static`, a written lifetime is kept
-    let lifetime =
-        if let Type::Reference(reference) = ty { reference.lifetime.as_ref() } else { None };
+    // a reference without a lifetime means `&'static`, everything else is kept as it is written
+    if let Type::Reference(reference) = ty {
+        if reference.lifetime.is_none() {
+            let mut reference = reference.clone();
 
-    let (ty, is_ref) = dereference_changed(ty);
+            reference.lifetime = Some(Lifetime::new("'static", reference.and_token.span()));
 
-    let ty = if is_ref {
-        if let Some(lifetime) = lifetime {
-            syn::parse2(quote_spanned!( ty.span() => &#lifetime #ty )).unwrap()
-        } else {
-            syn::parse2(quote_spanned!( ty.span() => &'static #ty )).unwrap()
+            return HashType::from(Type::Reference(reference));
         }
-    } else {
-        ty.clone()
-    };
+    }
 
     HashType::from(ty)
 }
